@@ -175,10 +175,41 @@ Qed.
 (* c28_model_satisfies_monitor *)
 Theorem model_satisfies_monitor c evs final :
   cfg_ok c -> (c_closeonerr c = true -> Forall nopanic evs) -> (final = true -> quiescent (run c evs)) ->
-  monitor (c_closeonerr c) (c_nsess c) final (hist_of (run c evs)) = 0.
+  monitor (c_closeonerr c) (c_nsess c) final true (hist_of (run c evs)) = 0.
 Proof.
   intros Hc Hnp Hq. unfold monitor. rewrite (safety_model c evs Hc Hnp).
   destruct final; [|reflexivity]. rewrite (final_model c evs Hc Hnp (Hq eq_refl)). reflexivity.
+Qed.
+
+(* ... and [fdrain = true] is what the model does: from a quiescent state a
+   DrainSends call without deadline returns nil *)
+Theorem drain_returns_when_quiescent c evs d :
+  cfg_ok c -> quiescent (run c evs) -> dpcs (run c evs) d = DIdle ->
+  let st := run c (evs ++ [EDrainCall d false; EDrain d false; EDrain d false; EWaiter; EDrain d false]) in
+  exists t0 t1, In (HDrain t0 t1 true) (drains st) /\ dpcs st d = DIdle.
+Proof.
+  intros Hc Q Hd. pose proof (acct_run c evs Hc) as A. pose proof (quiescent_admitted c _ A Q) as H0.
+  unfold run. rewrite fold_left_app. fold (run c evs). set (s0 := run c evs) in *.
+  cbn [fold_left]. rewrite !step_eq.
+  (* EDrainCall *)
+  set (s1 := stepT c (tick s0) (EDrainCall d false)).
+  assert (E1 : dpcs s1 d = DSet (now s0 + 1) false /\ admitted s1 = 0 /\ drains s1 = drains s0).
+  { subst s1. cbn [stepT]. sp. rewrite Hd. sp. rewrite upd_same. auto. }
+  destruct E1 as [E1 [E1a E1d]].
+  set (s2 := stepT c (tick s1) (EDrain d false)).
+  assert (E2 : dpcs s2 d = DOnce (now s0 + 1) false /\ admitted s2 = 0 /\ drains s2 = drains s0).
+  { subst s2. cbn [stepT]. unfold drain_step. sp. rewrite E1. sp. rewrite upd_same. auto. }
+  destruct E2 as [E2 [E2a E2d]].
+  set (s3 := stepT c (tick s2) (EDrain d false)).
+  assert (E3 : dpcs s3 d = DWait (now s0 + 1) false /\ admitted s3 = 0 /\ dstarted s3 = true /\ drains s3 = drains s0).
+  { subst s3. cbn [stepT]. unfold drain_step. sp. rewrite E2. sp. rewrite upd_same. auto. }
+  destruct E3 as [E3 [E3a [E3s E3d]]].
+  set (s4 := stepT c (tick s3) EWaiter).
+  assert (E4 : dpcs s4 d = DWait (now s0 + 1) false /\ drained s4 = true /\ drains s4 = drains s0).
+  { subst s4. cbn [stepT]. sp. rewrite E3s, E3a. cbn [andb N.eqb]. destruct (drained s3) eqn:Edr; cbn [negb andb]; sp; auto. }
+  destruct E4 as [E4 [E4d E4r]].
+  cbn [stepT]. unfold drain_step. sp. rewrite E4, E4d. unfold drain_return. sp.
+  exists (now s0 + 1), (now s4 + 1). split; [apply in_or_app; right; left; reflexivity | apply upd_same].
 Qed.
 
 (* ---- state-level statements ---------------------------------------------------------------------- *)
